@@ -49,5 +49,15 @@ func facts() {
 	skeletonFact("skel_auth_emailFromIDToken", []string{"C10"}, "internal/auth/providers/google.go", "", "emailFromIDToken")
 	skeletonFact("skel_auth_SignOut", []string{"C19"}, "internal/auth/authenticator.go", "Authenticator", "SignOut")
 
+	// wiring whose *shape* carries a property: where nonces come from, which provider calls are coalesced at all,
+	// one provider (and so one single-flight group) per upstream, where "now" is read
+	skeletonFact("skel_aead_Encrypt", []string{"C02", "C06"}, "internal/pkg/aead/aead.go", "MiscreantCipher", "Encrypt")
+	skeletonFact("skel_proxy_sf_Redeem", []string{"C06", "C01"}, "internal/proxy/providers/singleflight_middleware.go", "SingleFlightProvider", "Redeem")
+	skeletonFact("skel_auth_sf_Redeem", []string{"C10", "C09"}, "internal/auth/providers/singleflight_middleware.go", "SingleFlightProvider", "Redeem")
+	skeletonFact("skel_proxy_New", []string{"C13", "C01", "C11"}, "internal/proxy/proxy.go", "", "New")
+	skeletonFact("skel_auth_Redeem", []string{"C08"}, "internal/auth/authenticator.go", "Authenticator", "Redeem")
+	skeletonFact("skel_auth_validateSignature", []string{"C07", "C19"}, "internal/auth/middleware.go", "Authenticator", "validateSignature")
+	skeletonFact("skel_auth_validSignature", []string{"C07", "C19"}, "internal/auth/middleware.go", "", "validSignature")
+
 	templateActions("templateActions", "templateImports", []string{"C20"}, "internal/pkg/templates/templates.go", "internal/proxy/templates.go")
 }
